@@ -396,6 +396,20 @@ def r6(ctx):
         ev = evaluator(ctx)
         t = ev.call(f, [ev.symbolic_instance(ci), pixq(ctx)], {})
         v, _ = split_include(t, inc) if isinstance(t, (Ite, BoolT, Cmp, Const)) else (t, None)
+        # element correspondence: flatten / un-flatten must use the same (C) order
+        hazard = None
+        for a in _find_apps(v, 'apply'):
+            if a.args and isinstance(a.args[0], App) and a.args[0].name in (
+                    'attr:ravel', 'attr:flatten', 'attr:reshape', 'attr:transpose', 'attr:swapaxes'):
+                for x in a.args[1:]:
+                    if isinstance(x, Tup) and len(x.items) == 2 and isinstance(x.items[0], Const) \
+                            and x.items[0].v == 'order' and not (isinstance(x.items[1], Const) and x.items[1].v == 'C'):
+                        hazard = (a.args[0].name[5:], show(x.items[1]))
+        if hazard:
+            ctx.bad(construct, 'element-order',
+                    f'`{hazard[0]}(order={hazard[1]})` flattens the query in an order other than the C order the result '
+                    'is reshaped with: answers land at the wrong positions for non-C-contiguous query arrays', f.loc())
+            continue
         promoted = [a for n in RANK_CHANGERS for a in _find_apps(v, n)
                     if _mentions_sym(a, 'q.') and n.startswith('atleast')]
         if not promoted:
